@@ -48,7 +48,7 @@ CLAIMED["C10"] = dict(
          "protected region exactly once, the partition read back from the generated track is identical and pairs every block with its own "
          "hash and parity, the track is the concatenation of hash+parity; staged rule as a definitional theorem. The float rounding of the "
          "published rule is compared (Lean Float model vs compute_ecc_params/feature_scaling, bit-for-bit) over an exhaustive "
-         "max_block_size x rate grid - a test, labelled as such. Real loops run with stub codec/hasher for the sweep over sizes.",
+         "max_block_size x rate grid - a test, labelled as such. Real loops run with stub codec/hasher for the sweep over sizes. Hash kinds (model of lib/hasher.Hasher with base64 modelled exactly, hashlib a parameter): HASH_length - the value returned has exactly len(hasher) bytes for every known kind, HASH_table - len(hasher) is the table read from the source, HASH_short_prefix/HASH_mini_prefix - a short/mini kind keeps 24/12 bits of the digest. Directed sizes where a block starts exactly where max_block/(1+2*rate) is a half-integer (exact rational arithmetic) are part of every run.",
     design="§6 C10", technique="Lean 4 proof (induction on the block loops, arbitrary message-length function) + model/implementation correspondence sweep",
     note="Trusted: Lean kernel and standard axioms; model validated by the sweep; IEEE-754 rounding validated not proved (theorems do not "
          "depend on it); well-formedness (message length >= 1, hash+parity >= 1 per block) is an explicit hypothesis.")
